@@ -216,7 +216,12 @@ def rule_e(ctx):
     c07.rule_c(ctx)
 
 
+def rule_f(ctx):
+    from . import c07
+    c07.rule_b(ctx)
+
 RULES = [
+    ("C10.f", "same-key occurrences are chained in pull order in one task", rule_f),
     ("C10.e", "same-key occurrences chained in a SeqFuture are each polled to completion exactly once", rule_e),
     ("C10.a", "pull helper re-inserts next() at time+period under the same origin", rule_a),
     ("C10.b", "next() preserves generator, period and key", rule_b),
